@@ -818,3 +818,51 @@ Proof.
   rewrite tick_refines in E by (auto; apply Hal; apply delivered_defined; auto). inversion E; subst st'.
   rewrite spec_hist_snoc. exact Hsem.
 Qed.
+
+(* ---------- programs registered in phases ---------- *)
+
+Lemma prog_ok_from_app : forall p1 p2 n,
+  prog_ok_from n (p1 ++ p2) <-> prog_ok_from n p1 /\ prog_ok_from (n + length p1) p2.
+Proof.
+  induction p1 as [|c p1 IH]; intros p2 n; simpl.
+  - rewrite Nat.add_0_r. tauto.
+  - rewrite IH. replace (S n + length p1)%nat with (n + S (length p1))%nat by lia. tauto.
+Qed.
+
+Lemma prog_total_prefix p1 p2 : prog_ok (p1 ++ p2) -> prog_total (p1 ++ p2) -> prog_total p1.
+Proof.
+  intros Hok Hpt k c Hk.
+  assert (Hk' : nth_error (p1 ++ p2) k = Some c).
+  { rewrite nth_error_app1; auto. apply nth_error_Some; congruence. }
+  destruct (Hpt k c Hk') as [Hct Hna]. split; auto.
+  intros s Hs c' Hc'. apply (Hna s Hs c').
+  rewrite nth_error_app1; auto. apply nth_error_Some; congruence.
+Qed.
+
+(* registering a program in two phases (before start(), and later) registers the graph of the whole
+   program; both the early and the final graph are well formed and never take the early return *)
+Theorem phased_program p1 p2 :
+  prog_ok (p1 ++ p2) -> prog_total (p1 ++ p2) ->
+  let G1 := fst (expand p1) in let G2 := fst (expand (p1 ++ p2)) in
+  expand (p1 ++ p2) = expand_from p2 (expand p1) /\
+  (exists new, G2 = G1 ++ new) /\
+  graphs_ok G1 [HReg (skipn (length G1) G2)].
+Proof.
+  intros Hok Hpt G1 G2.
+  assert (Hok1 : prog_ok p1) by (apply prog_ok_from_app in Hok; tauto).
+  assert (Hok2 : prog_ok_from (length p1) p2) by (apply prog_ok_from_app in Hok; tauto).
+  assert (Hpt1 : prog_total p1) by (eapply prog_total_prefix; eauto).
+  assert (Hexp : expand (p1 ++ p2) = expand_from p2 (expand p1)).
+  { unfold expand, expand_from. apply fold_left_app. }
+  destruct (prog_sem p1 Hok1) as [Hwf1 [Hlen1 [Hh1 _]]].
+  destruct (prog_sem (p1 ++ p2) Hok) as [Hwf2 _].
+  assert (Hext : exists new, G2 = G1 ++ new).
+  { unfold G2. rewrite Hexp. destruct (expand p1) as [g hs] eqn:E. simpl in *.
+    rewrite <- Hlen1 in Hok2.
+    destruct (expand_from_post p2 g hs Hwf1 Hh1 Hok2) as [_ [_ [Hnew _]]]. exact Hnew. }
+  split; auto. split; auto.
+  destruct Hext as [new Hnew]. simpl.
+  split; auto. split; [apply prog_total_live; auto|].
+  rewrite Hnew, skipn_app, skipn_all, Nat.sub_diag. simpl. rewrite <- Hnew.
+  split; auto. split; [apply prog_total_live; auto|exact I].
+Qed.
